@@ -530,6 +530,18 @@ func runC05(c *Ctx) {
 				}
 			})
 			sameK := func(v ssa.Value) bool { return v == k || sym(v) == sym(k) }
+			// a literal offset in an arm where the slot is known to be that offset (case i == 0: q.pushDown(0))
+			knownEqual := func(b *ssa.BasicBlock, a ssa.Value) bool {
+				if _, isC := a.(*ssa.Const); !isC {
+					return false
+				}
+				for _, cm := range cmpsAt(b) {
+					if cm.Op == token.EQL && ((sameK(cm.X) && sym(cm.Y) == sym(a)) || (sameK(cm.Y) && sym(cm.X) == sym(a))) {
+						return true
+					}
+				}
+				return false
+			}
 			var downCalls []*ssa.Call
 			isDown := func(in2 ssa.Instruction) bool {
 				call, ok := in2.(*ssa.Call)
@@ -537,7 +549,7 @@ func runC05(c *Ctx) {
 					return false
 				}
 				a := call.Call.Args[1]
-				if sameK(a) {
+				if sameK(a) || knownEqual(call.Block(), a) {
 					return true
 				}
 				// pushDown(pushUp(k))
@@ -552,7 +564,7 @@ func runC05(c *Ctx) {
 					return false
 				}
 				a := call.Call.Args[1]
-				if sameK(a) {
+				if sameK(a) || knownEqual(call.Block(), a) {
 					return true
 				}
 				if inner, ok := a.(*ssa.Call); ok && staticCallee(&inner.Call) == m.siftDn && sameK(inner.Call.Args[1]) {
@@ -587,13 +599,98 @@ func runC05(c *Ctx) {
 				}
 				return false
 			}
-			okDown, witD := mustPassToExitE(P, s, isDown, func(iff *ssa.If, i int) bool {
+			// a repair helper of the queue (q.fix(i)): judged from its own entry for its own parameter — sift-down on
+			// all paths but those where the slot lies beyond the buffer, sift-up on all paths but those and the ones
+			// where sift-down moved the element — and then the call counts as both
+			repairs := func(in2 ssa.Instruction) bool {
+				call, ok := in2.(*ssa.Call)
+				if !ok || len(call.Call.Args) < 2 || call.Call.Args[0] != ssa.Value(fn.Params[0]) {
+					return false
+				}
+				h := origin(staticCallee(&call.Call))
+				if h == nil || h.Blocks == nil || h == fn || isSift[h] || len(h.Params) < 2 {
+					return false
+				}
+				pi := -1
+				for i, a := range call.Call.Args {
+					if i > 0 && sameK(a) {
+						pi = i
+					}
+				}
+				if pi < 0 || pi >= len(h.Params) {
+					return false
+				}
+				hp := h.Params[pi]
+				hDown := func(in3 ssa.Instruction) bool {
+					c3, ok := in3.(*ssa.Call)
+					return ok && staticCallee(&c3.Call) == m.siftDn && c3.Call.Args[1] == ssa.Value(hp)
+				}
+				hUp := func(in3 ssa.Instruction) bool {
+					c3, ok := in3.(*ssa.Call)
+					return ok && staticCallee(&c3.Call) == m.siftUp && c3.Call.Args[1] == ssa.Value(hp)
+				}
+				hBeyond := func(cm Cmp) bool {
+					isLen := func(v ssa.Value) bool {
+						ln, ok := isBuiltinCall(v, "len")
+						return ok && isLoadOfField(ln.Call.Args[0], m.dataF)
+					}
+					return (cm.X == ssa.Value(hp) && isLen(cm.Y) && (cm.Op == token.GEQ || cm.Op == token.EQL)) || (cm.Y == ssa.Value(hp) && isLen(cm.X) && (cm.Op == token.LEQ || cm.Op == token.EQL))
+				}
+				hMoved := func(cm Cmp) bool {
+					for _, v := range []ssa.Value{cm.X, cm.Y} {
+						if c3, ok := v.(*ssa.Call); ok && staticCallee(&c3.Call) == m.siftDn && c3.Call.Args[1] == ssa.Value(hp) && cm.Op == token.NEQ {
+							return true
+						}
+					}
+					return false
+				}
+				d, _ := mustPassToExitE(P, firstInstr(h), hDown, func(iff *ssa.If, i int) bool {
+					cm, ok := edgeCmp(iff, i)
+					return ok && hBeyond(cm)
+				})
+				u, _ := mustPassToExitE(P, firstInstr(h), hUp, func(iff *ssa.If, i int) bool {
+					cm, ok := edgeCmp(iff, i)
+					return ok && (hBeyond(cm) || hMoved(cm))
+				})
+				return d && u
+			}
+			// the shape of the heap exempts a direction: the root (k == 0) has nothing above it, a slot whose first
+			// child index is beyond the buffer has nothing below it
+			atRoot := func(cm Cmp) bool {
+				return (sameK(cm.X) && isConstInt(cm.Y, 0) || sameK(cm.Y) && isConstInt(cm.X, 0)) && cm.Op == token.EQL
+			}
+			isLeaf := func(cm Cmp) bool {
+				if trunc == nil {
+					return false
+				}
+				isT := func(v ssa.Value) bool {
+					if v == trunc || sym(v) == sym(trunc) {
+						return true
+					}
+					ln, ok := isBuiltinCall(v, "len")
+					return ok && isLoadOfField(ln.Call.Args[0], m.dataF)
+				}
+				child := func(v ssa.Value) bool {
+					f, ok := affOf(v, k, nil, 0)
+					if !ok {
+						return false
+					}
+					for _, cf := range m.children[:1] { // the first child: if it is beyond the buffer, so are the others
+						if f == cf {
+							return true
+						}
+					}
+					return false
+				}
+				return (child(cm.X) && isT(cm.Y) && cm.Op == token.GEQ) || (child(cm.Y) && isT(cm.X) && cm.Op == token.LEQ)
+			}
+			okDown, witD := mustPassToExitE(P, s, func(in2 ssa.Instruction) bool { return isDown(in2) || repairs(in2) }, func(iff *ssa.If, i int) bool {
 				cm, ok := edgeCmp(iff, i)
-				return ok && beyond(cm)
+				return ok && (beyond(cm) || isLeaf(cm))
 			})
-			okUp, witU := mustPassToExitE(P, s, isUp, func(iff *ssa.If, i int) bool {
+			okUp, witU := mustPassToExitE(P, s, func(in2 ssa.Instruction) bool { return isUp(in2) || repairs(in2) }, func(iff *ssa.If, i int) bool {
 				cm, ok := edgeCmp(iff, i)
-				return ok && (beyond(cm) || moved(cm))
+				return ok && (beyond(cm) || moved(cm) || atRoot(cm))
 			})
 			switch {
 			case okDown && okUp:
@@ -901,8 +998,21 @@ func runC05(c *Ctx) {
 				}
 				nUse++
 				inRange := false
+				// slot i was accessed while the buffer still had hi+1 elements (before the cut): i ≤ hi; then i != hi
+				// is as good as i < hi
+				accessedBefore := false
+				allInstrs(fn, func(in0 ssa.Instruction) {
+					if ia0, ok := in0.(*ssa.IndexAddr); ok {
+						if idx, ok := m.dataIndex(ia0); ok && (idx == ssa.Value(ip) || sameV(idx, ip)) && dominatesInstr(in0, cut) {
+							accessedBefore = true
+						}
+					}
+				})
 				for _, cm := range cmpsAt(in.Block()) {
 					if (cm.X == ssa.Value(ip) && cm.Y == hi && cm.Op == token.LSS) || (cm.Y == ssa.Value(ip) && cm.X == hi && cm.Op == token.GTR) {
+						inRange = true
+					}
+					if accessedBefore && cm.Op == token.NEQ && ((cm.X == ssa.Value(ip) && cm.Y == hi) || (cm.Y == ssa.Value(ip) && cm.X == hi)) {
 						inRange = true
 					}
 				}
@@ -964,6 +1074,34 @@ func runC05(c *Ctx) {
 			for _, in2 := range w.order {
 				if in2 == ssa.Instruction(cut) {
 					missing, wit = true, w.witness(P, in2)
+				}
+			}
+			if missing {
+				// the tail element may be saved in a local before the cut (last := q.data[n]) and put into slot i
+				// afterwards: then every path from the cut to a return stores that saved value into slot i, except
+				// on edges that say slot i was the tail
+				var saved ssa.Value
+				allInstrs(fn, func(in0 ssa.Instruction) {
+					ld, ok := in0.(*ssa.UnOp)
+					if !ok || ld.Op != token.MUL || !dominatesInstr(ld, cut) {
+						return
+					}
+					if idx, ok := m.dataIndex(ld.X); ok && (idx == hi || sym(idx) == sym(hi)) {
+						saved = ld
+					}
+				})
+				if saved != nil {
+					storesSaved := func(in2 ssa.Instruction) bool {
+						st, ok := in2.(*ssa.Store)
+						if !ok || st.Val != saved {
+							return false
+						}
+						idx, ok := m.dataIndex(st.Addr)
+						return ok && (idx == ssa.Value(ip) || sameV(idx, ip))
+					}
+					if okS, _ := mustPassToExitE(P, cut, storesSaved, exemptEdge); okS {
+						missing = false
+					}
 				}
 			}
 			c.judge(!missing, "R-POP-CONSERVES", key, cut.Pos(), "slot i receives the tail element before the tail slot is cut off", "the last slot is cut off on a path where slot i was never overwritten ("+wit+"): the element that was in the last slot is lost and the removed element stays in the heap")
@@ -1192,6 +1330,8 @@ func runC06(c *Ctx) {
 	}
 	_ = eff
 	// fullRangeNotifyAfter: a loop after `at` that reports every index of q.data.
+	inHelper := false
+	var fullRangeNotifyAfterRef func(fn *ssa.Function, at ssa.Instruction) (bool, string)
 	fullRangeNotifyAfter := func(fn *ssa.Function, at ssa.Instruction) (bool, string) {
 		found := false
 		why := ""
@@ -1319,11 +1459,70 @@ func runC06(c *Ctx) {
 				}
 			})
 		}
+		// the loop may live in a helper of the queue that every path after the bulk write calls (q.heapify(true)):
+		// the helper is judged from its entry, and a report that is conditional on one of its boolean parameters
+		// counts only where the call passes a constant true
+		if !found && !inHelper {
+			allInstrs(fn, func(in2 ssa.Instruction) {
+				call, ok := in2.(*ssa.Call)
+				if !ok || found || len(call.Call.Args) == 0 || call.Call.Args[0] != ssa.Value(fn.Params[0]) {
+					return
+				}
+				h := origin(staticCallee(&call.Call))
+				if h == nil || h.Blocks == nil || h == fn || !dominatesInstr(at, call) {
+					return
+				}
+				inHelper = true
+				sub, _ := fullRangeNotifyAfterRef(h, firstInstr(h))
+				inHelper = false
+				if !sub {
+					return
+				}
+				// conditions on boolean parameters that guard the report inside the helper
+				okGuards := true
+				allInstrs(h, func(in3 ssa.Instruction) {
+					c3, ok := in3.(*ssa.Call)
+					if !ok || !isLoadOfField(c3.Call.Value, m.moveF) {
+						return
+					}
+					for _, f := range factsAt(c3.Block()) {
+						p, isP := f.Cond.(*ssa.Parameter)
+						if !isP {
+							continue
+						}
+						pi := -1
+						for i, q := range h.Params {
+							if q == p {
+								pi = i
+							}
+						}
+						if pi < 0 || pi >= len(call.Call.Args) {
+							okGuards = false
+							continue
+						}
+						k, isK := call.Call.Args[pi].(*ssa.Const)
+						if !isK || k.Value == nil || (k.Value.String() == "true") != f.Truth {
+							okGuards = false
+						}
+					}
+				})
+				if !okGuards {
+					why = "the helper " + h.Name() + " reports positions only under a flag this call does not set"
+					return
+				}
+				if skip, wit := reachesWithout(P, at, false, isReturn, func(in3 ssa.Instruction) bool { return in3 == ssa.Instruction(call) }); skip {
+					why = "a return is reachable after the bulk write without running the reporting loop (" + wit + "): the new occupants' positions are never reported on that path"
+					return
+				}
+				found = true
+			})
+		}
 		if !found && why == "" {
 			why = "no reporting loop after the bulk write"
 		}
 		return found, why
 	}
+	fullRangeNotifyAfterRef = fullRangeNotifyAfter
 	for _, fn := range m.methods {
 		name := fnName(fn)
 		allInstrs(fn, func(in ssa.Instruction) {
@@ -1363,8 +1562,49 @@ func runC06(c *Ctx) {
 					c.sawFn(name)
 					key := fmt.Sprintf("%s:slot[%s]", name, ksym(k))
 					// the notify must LOAD the element after the write: require the load instruction be after the store
-					ok1, wit := mustPassToExit(P, x, func(in2 ssa.Instruction) bool {
+					var reportsStored []*ssa.Call
+					// lengths the buffer is cut to somewhere in this function
+					cutTo := map[ssa.Value]bool{}
+					allInstrs(fn, func(in0 ssa.Instruction) {
+						if s0, ok := in0.(*ssa.Store); ok {
+							if fa0, ok := s0.Addr.(*ssa.FieldAddr); ok {
+								if _, f0 := fieldVarOf(fa0); sameField(f0, m.dataF) {
+									if sl, ok := s0.Val.(*ssa.Slice); ok && sl.Low == nil && sl.High != nil {
+										if after, _ := reachesWithout(P, x, false, func(in3 ssa.Instruction) bool { return in3 == in0 }, func(ssa.Instruction) bool { return false }); after {
+											cutTo[sl.High] = true
+										}
+									}
+								}
+							}
+						}
+					})
+					ok1, wit := mustPassToExitE(P, x, func(in2 ssa.Instruction) bool {
 						if isCut(in2, k) {
+							return true
+						}
+						// the buffer is cut to a length known to be ≤ 0 on this path: no slot is left
+						if s2, ok := in2.(*ssa.Store); ok {
+							if fa2, ok := s2.Addr.(*ssa.FieldAddr); ok {
+								if _, f2 := fieldVarOf(fa2); sameField(f2, m.dataF) {
+									if sl, ok := s2.Val.(*ssa.Slice); ok && sl.Low == nil && sl.High != nil {
+										if isConstInt(sl.High, 0) {
+											return true
+										}
+										for _, cm := range cmpsAt(s2.Block()) {
+											if cm.X == sl.High && isConstInt(cm.Y, 0) && (cm.Op == token.LEQ || cm.Op == token.EQL) {
+												return true
+											}
+											if cm.X == sl.High && isConstInt(cm.Y, 1) && cm.Op == token.LSS {
+												return true
+											}
+										}
+									}
+								}
+							}
+						}
+						// the report may name the very value that was stored (q.data[i] = last; …; q.move(last, i))
+						if c2, ok := in2.(*ssa.Call); ok && isLoadOfField(c2.Call.Value, m.moveF) && len(c2.Call.Args) == 2 && c2.Call.Args[0] == x.Val && (c2.Call.Args[1] == k || sym(c2.Call.Args[1]) == sym(k)) {
+							reportsStored = append(reportsStored, c2)
 							return true
 						}
 						if !isNotify(in2, k) {
@@ -1372,7 +1612,56 @@ func runC06(c *Ctx) {
 						}
 						ld := in2.(*ssa.Call).Call.Args[0].(*ssa.UnOp)
 						return dominatesInstr(x, ld)
+					}, func(iff *ssa.If, i int) bool {
+						cm, ok := edgeCmp(iff, i)
+						if !ok {
+							return false
+						}
+						// sift-down moved the element: the exchanges it made have reported every slot they touched
+						for _, v := range []ssa.Value{cm.X, cm.Y} {
+							if c3, ok := v.(*ssa.Call); ok && staticCallee(&c3.Call) == m.siftDn && cm.Op == token.NEQ && (c3.Call.Args[1] == k || sym(c3.Call.Args[1]) == sym(k)) && dominatesInstr(x, c3) {
+								return true
+							}
+						}
+						// an edge on which the length the buffer is about to be cut to is ≤ 0: every slot goes
+						if !cutTo[cm.X] {
+							return false
+						}
+						return (isConstInt(cm.Y, 0) && (cm.Op == token.LEQ || cm.Op == token.EQL)) || (isConstInt(cm.Y, 1) && cm.Op == token.LSS)
 					})
+					// a report that names the stored value is only as good as the element's staying where it was put:
+					// no sift-up of that slot between the write and the report, and a sift-down only where it is known
+					// to have left the element in place
+					for _, rp := range reportsStored {
+						stale := ""
+						allInstrs(fn, func(in3 ssa.Instruction) {
+							c3, ok := in3.(*ssa.Call)
+							if !ok || len(c3.Call.Args) < 2 || !(c3.Call.Args[1] == k || sym(c3.Call.Args[1]) == sym(k)) {
+								return
+							}
+							cal := staticCallee(&c3.Call)
+							if cal != m.siftUp && cal != m.siftDn {
+								return
+							}
+							between, _ := reachesWithout(P, x, false, func(in4 ssa.Instruction) bool { return in4 == in3 }, func(in4 ssa.Instruction) bool { return in4 == ssa.Instruction(rp) })
+							reaches, _ := reachesWithout(P, in3, false, func(in4 ssa.Instruction) bool { return in4 == ssa.Instruction(rp) }, func(ssa.Instruction) bool { return false })
+							if !between || !reaches {
+								return
+							}
+							if cal == m.siftDn {
+								for _, cm := range cmpsAt(rp.Block()) {
+									if (cm.X == ssa.Value(c3) || cm.Y == ssa.Value(c3)) && cm.Op == token.EQL {
+										return // reported only where sift-down left it in place
+									}
+								}
+							}
+							stale = P.pos(c3.Pos())
+						})
+						if stale != "" {
+							ok1 = false
+							wit = "the element is sifted at " + stale + " before its position is reported: the report names the slot it was put in, not where it is"
+						}
+					}
 					c.judge(ok1, "R-MOVE-NOTIFY", key, x.Pos(), "reported (or truncated away) on all paths", "slot is written but its new occupant's position is not reported on some path ("+wit+")")
 					return
 				}
